@@ -703,6 +703,10 @@ func main() {
 				if b.name != "Butterfly" {
 					sb.WriteString(translate(path, b, data, []int{0, 0}, "_zx", f.suffix))
 					sb.WriteString("\n")
+				} else {
+					// both arguments the same element
+					sb.WriteString(translate(path, b, data, []int{0, 0}, "_ab", f.suffix))
+					sb.WriteString("\n")
 				}
 			case 3:
 				for _, v := range []struct {
